@@ -38,7 +38,7 @@ type selector struct {
 	reEx  *regexp.Regexp
 }
 
-var safetyKinds = []string{"idx", "slice", "nil", "div", "make", "typeassert", "shift", "panic", "devirt"}
+var safetyKinds = []string{"idx", "slice", "nil", "div", "make", "typeassert", "shift", "panic", "devirt", "alloc"}
 
 func (s *selector) match(o *Obl) bool {
 	if s.re == nil {
